@@ -49,6 +49,9 @@ impl Stream {
             Some(crate::verif::Transport::Terminal(history)) => {
                 return Self::Terminal(Terminal::verif_new(history))
             }
+            Some(crate::verif::Transport::TerminalWithHistoryFile) => {
+                return Self::Terminal(Terminal::new())
+            }
             None => (),
         }
         if stdin.is_terminal() {
